@@ -20,10 +20,10 @@ def run(ctx):
         # all paths (not one witness per transition) over a small alphabet: real state hidden under equal abstract states
         c = sc.consts("ebgp", {"ok", "badAS"}, {"annA", "noOrigin"}, {"badType"}, {"ManualStop", "Notification", "Wait"}, 8, sessions=2)
         behs += sc.run_family(ctx, "all paths ebgp", c, 4000, design=False, allpaths=True)
-    c = sc.consts("hold3", {"hold3", "ok"}, {"annA"}, set(), {"WriteFails", "HoldExpires"}, 6)
+    c = sc.consts("hold3", {"hold3", "ok"}, {"annA"}, set(), {"WriteFails", "HoldExpires", "Sustain"}, 6)
     behs += sc.run_family(ctx, "hold3 (keepalive write failure)", c, 2000 if big else 150)
     ctx.rule = ("one witness per transition of the BGPFSM graph (every event - OPEN classes, KEEPALIVE, UPDATE classes, NOTIFICATION, "
-                "malformed header, hold timer expiry, keepalive write failure, manual stop, a quiet period of 2 s - in every state, up to 2-3 consecutive "
+                "malformed header, hold timer expiry, keepalive write failure, manual stop, a quiet period of 2 s, a period longer than a short hold time bridged by KEEPALIVEs - in every state, up to 2-3 consecutive "
                 "connections) plus random event sequences; replayed on a real bgpServer with a passive peer over an in-memory connection; "
                 "after every event the observed (state, connection closed, RIBs attached, Adj-RIB-In, Loc-RIB, messages written, "
                 "negotiated hold time, ASN contribution) must equal the model's; non-trivial = the session reaches OpenConfirm or beyond")
